@@ -1,6 +1,7 @@
 package main
 
 import (
+	"os"
 	"fmt"
 	"path/filepath"
 	"go/ast"
@@ -34,7 +35,18 @@ func (e *Enc) analyseCFG() {
 	for h := range e.loops {
 		heads = append(heads, h)
 	}
-	sort.Slice(heads, func(i, j int) bool { return loopPos(heads[i]) < loopPos(heads[j]) })
+	sort.Slice(heads, func(i, j int) bool {
+		pi, pj := loopPos(heads[i]), loopPos(heads[j])
+		if pi != pj {
+			return pi < pj
+		}
+		return heads[i].Index < heads[j].Index
+	})
+	if os.Getenv("GOBTVC_DEBUG_FRAME") != "" {
+		for _, h := range heads {
+			fmt.Fprintf(os.Stderr, "loop head b%d pos %d\n", h.Index, loopPos(h))
+		}
+	}
 	for i, h := range heads {
 		li := e.loops[h]
 		li.ordinal = i
@@ -205,10 +217,14 @@ func (e *Enc) Encode() {
 		}
 	}
 	// parameters
+	if e.token {
+		e.needB = true
+	}
 	for _, p := range fn.Params {
 		v := e.val(p)
 		e.assert(e.typeFacts(v.T, p.Type()))
 		e.assert(e.refOld(v, e.entryHeap))
+		e.byteSliceEnters(e.entryHeap, v, p.Type(), "true")
 	}
 	for _, fv := range fn.FreeVars {
 		v := e.val(fv)
@@ -476,6 +492,9 @@ func (e *Enc) loopHead(b *ssa.BasicBlock, li *loopInfo) {
 	{
 		plain, except := e.w.loopFrame(li.blocks, e.fn)
 		aEntry := e.allocCounter(pre)
+		if os.Getenv("GOBTVC_DEBUG_FRAME") != "" {
+			fmt.Fprintf(os.Stderr, "loop %d of %s: mod=%v plain=%v except=%v\n", li.ordinal, e.name, li.mod, plain, except)
+		}
 		var keys []string
 		for k := range li.mod {
 			keys = append(keys, k)
@@ -486,13 +505,25 @@ func (e *Enc) loopHead(b *ssa.BasicBlock, li *loopInfo) {
 			keys = nil
 		}
 		for _, k := range keys {
-			if plain[k] || plain["*"] || ghostPlain(k) {
+			exk := k
+			if k == "$bytes" && e.token {
+				// contents of byte slices follow the frame of the bytes themselves
+				e.bytesHeap(e.cur)
+				if li.mod["T:uint8"] {
+					continue // havocked together with T:uint8 below
+				}
+				exk = "T:uint8"
+			} else if plain[k] || plain["*"] || ghostPlain(k) {
+				e.havocKey(e.cur, k)
+				continue
+			}
+			if plain[exk] || plain["*"] {
 				e.havocKey(e.cur, k)
 				continue
 			}
 			var ex []string
 			bad := false
-			for _, v := range except[k] {
+			for _, v := range except[exk] {
 				val, known := e.vals[v]
 				if !known {
 					if _, isP := v.(*ssa.Parameter); isP {
@@ -971,6 +1002,9 @@ func (e *Enc) instr(ins ssa.Instruction) {
 		e.oblige("make", descOf(e.exprText(x, x)), "", x.Pos(), e.guardGoal(and(app("<=", "0", ln), app("<=", ln, cp), app("<=", app("*", cp, ilit(elemSize)), "281474976710656"))))
 		o := e.newObj(h)
 		v := e.define(x, app("mkslice", o, "0", ln, cp))
+		if e.token && isByteSlice(x.Type()) {
+			e.setBytes(h, v.T, app("bzeros", ln))
+		}
 		if e.precise {
 			et := under(x.Type()).(*types.Slice).Elem()
 			for _, k := range e.w.keysOfType(et) {
@@ -1056,6 +1090,11 @@ func (e *Enc) instr(ins ssa.Instruction) {
 		addr := e.val(x.Addr)
 		t := x.Addr.Type().Underlying().(*types.Pointer).Elem()
 		e.nilCheck(addr.T, x.Addr, x.Pos(), "store")
+		if ia, isIA := x.Addr.(*ssa.IndexAddr); isIA && e.token {
+			if isByteSlice(ia.X.Type()) {
+				e.unsupp("single-byte store into a slice in token mode (%s): verify this function in array mode", e.exprText(x.Addr, x))
+			}
+		}
 		e.globalWriteCheck(x)
 		e.frameCheck(x, addr.T)
 		e.lockCheck(x.Addr, true, x.Pos())
@@ -1241,6 +1280,11 @@ func (e *Enc) unop(x *ssa.UnOp) {
 		r := e.define(x, t)
 		e.assert(implies(e.reach[e.curBlock], e.typeFacts(r.T, x.Type())))
 		e.assert(e.refOld(r, e.cur))
+		e.byteSliceEnters(e.cur, r, x.Type(), e.reach[e.curBlock])
+		if ia, isIA := x.X.(*ssa.IndexAddr); isIA && e.token && isByteSlice(ia.X.Type()) {
+			// reading one byte of a slice = reading its content
+			e.assert(implies(e.reach[e.curBlock], app("=", r.T, app("bat", e.tokBytes(e.cur, e.val(ia.X).T), e.val(ia.Index).T))))
+		}
 		if srt := e.sortOf(x.Type()); srt == "Ref" || srt == "Slice" {
 			e.loadedRefFacts(e.cur, e.keyForAddr(x.X, x.Type()), srt, v.T)
 			// a value loaded from a private local cell into which only fresh values are ever stored (syntactic
@@ -1525,13 +1569,19 @@ func (e *Enc) convert(x *ssa.Convert) {
 	case fs == "Slice" && ts == "Str":
 		n := e.fresh("s2str", "Str")
 		e.assert(app("=", app("strlen", n), app("slen", v.T)))
+		if e.token && isByteSlice(from) {
+			e.assert(implies(e.reach[e.curBlock], app("=", app("bstr", n), e.tokBytes(e.cur, v.T))))
+		}
 		e.define(x, n)
 	case fs == "Str" && ts == "Slice":
 		o := e.newObj(e.cur)
 		ln := app("strlen", v.T)
 		c := e.fresh("cap", "Int")
 		e.assert(and(app(">=", c, ln), app("<=", c, "1099511627776")))
-		e.define(x, app("mkslice", o, "0", ln, c))
+		r := e.define(x, app("mkslice", o, "0", ln, c))
+		if e.token && isByteSlice(to) {
+			e.setBytes(e.cur, r.T, app("bstr", v.T))
+		}
 	case fs == "Int" && ts == "Str":
 		n := e.fresh("r2str", "Str")
 		e.assert(and(app(">=", app("strlen", n), "1"), app("<=", app("strlen", n), "4")))
@@ -1593,7 +1643,10 @@ func (e *Enc) sliceOp(x *ssa.Slice) {
 		hi := get(x.High, app("slen", v.T))
 		mx := get(x.Max, app("scap", v.T))
 		e.oblige("slice", desc, "", x.Pos(), e.guardGoal(and(app("<=", "0", lo), app("<=", lo, hi), app("<=", hi, mx), app("<=", mx, app("scap", v.T)))))
-		e.define(x, app("mkslice", app("sarr", v.T), app("+", app("soff", v.T), lo), app("-", hi, lo), app("-", mx, lo)))
+		r := e.define(x, app("mkslice", app("sarr", v.T), app("+", app("soff", v.T), lo), app("-", hi, lo), app("-", mx, lo)))
+		if e.token && isByteSlice(x.X.Type()) {
+			e.setBytes(e.cur, r.T, app("bsub", e.tokBytes(e.cur, v.T), lo, hi))
+		}
 	case *types.Basic: // string
 		lo := get(x.Low, "0")
 		hi := get(x.High, app("strlen", v.T))
@@ -1609,7 +1662,11 @@ func (e *Enc) sliceOp(x *ssa.Slice) {
 		mx := get(x.Max, n)
 		e.oblige("nil", desc, "", x.Pos(), e.guardGoal(app("distinct", v.T, "nil")))
 		e.oblige("slice", desc, "", x.Pos(), e.guardGoal(and(app("<=", "0", lo), app("<=", lo, hi), app("<=", hi, mx), app("<=", mx, n))))
-		e.define(x, app("mkslice", v.T, lo, app("-", hi, lo), app("-", mx, lo)))
+		r := e.define(x, app("mkslice", v.T, lo, app("-", hi, lo), app("-", mx, lo)))
+		if e.token && typeKey(arr.Elem()) == "uint8" && arr.Len() <= 16 {
+			// a byte-array literal: its content is the cells as they are now
+			e.setBytes(e.cur, r.T, e.bytesExpand(e.cur, r.T, int(arr.Len())))
+		}
 	default:
 		e.unsupp("slice of %s", x.X.Type())
 	}
@@ -1674,6 +1731,9 @@ func (e *Enc) ret(x *ssa.Return) {
 		retTerms = append(retTerms, e.val(rv).T)
 	}
 	for _, en := range e.ct.Ensures {
+		if en.Define {
+			continue
+		}
 		if e.ct.Trusted != "" && !strings.HasPrefix(en.Tag, "C") {
 			// an assumed (trusted) contract: its untagged clauses are part of the trusted base, not obligations
 			continue
